@@ -136,9 +136,31 @@ def r2(ctx):
             ok = we is not None and match(we, ('bin', 'Add', _var('window_start'), Call('count_until', ('agg', 'adt', Pred(lambda n: n.endswith('Range::Range')), (_var('window_start'), Call('CharString::len', ANY))), N(b, 'window_length'), ANY)))
             ctx.require(ok, b, 'window-end|byte', 'byte: window_end = window_start + count_until(window_start..len, window_length)', 'window_end = %s' % (show_in(b, we) if we else '?'))
             # empty window => Err, before the push
-            g = [g for g in edge_guards(b) if g.block in loop.blocks and g.atom()[1] is True and
-                 (match(core(g.atom()[0]), ('bin', 'Le', Pred(lambda u: nosite(u) == nosite(we)), _var('window_start'))) or
-                  match(core(g.atom()[0]), ('bin', 'Eq', Pred(lambda u: nosite(u) == nosite(we)), _var('window_start'))))] if we else []
+            # "no progress": window_end - window_start <= 0, in whatever way it is written (`window_end <= window_start`, `== `, the
+            # character count `== 0` / `< 1`): the guard's comparison is brought to the form E <= 0 / E == 0 and E compared as a polynomial
+            from analysis import poly as _poly
+            D = _poly._add(_poly.poly(we), _poly.poly(('var', 'window_start', R['window_start'])), -1) if we else None
+
+            def _noprog(gd):
+                t_, pol_ = gd.atom()
+                c_ = core(t_)
+                if pol_ is None or c_[0] != 'bin' or c_[1] not in ('Le', 'Lt', 'Ge', 'Gt', 'Eq', 'Ne') or D is None:
+                    return False
+                op_ = c_[1] if pol_ else {'Le': 'Gt', 'Gt': 'Le', 'Lt': 'Ge', 'Ge': 'Lt', 'Eq': 'Ne', 'Ne': 'Eq'}[c_[1]]
+                pa, pb = _poly.poly(c_[2]), _poly.poly(c_[3])
+                one = {(): 1}
+                if op_ == 'Le':
+                    return _poly._add(pa, pb, -1) == D
+                if op_ == 'Ge':
+                    return _poly._add(pb, pa, -1) == D
+                if op_ == 'Lt':
+                    return _poly._add(_poly._add(pa, pb, -1), one, 1) == D
+                if op_ == 'Gt':
+                    return _poly._add(_poly._add(pb, pa, -1), one, 1) == D
+                if op_ == 'Eq':
+                    return _poly._add(pa, pb, -1) == D or _poly._add(pb, pa, -1) == D
+                return False
+            g = [g for g in edge_guards(b) if g.block in loop.blocks and _noprog(g)] if we else []
             ok = len(g) == 1
             if ok:
                 region = dominated_by_edge(b, (g[0].block, g[0].target))
